@@ -335,6 +335,31 @@ theorem discard_link {α : Type} (fl : DecProg.St → DecProg.Err → Prog α) (
       | zero => simp [DecHist.discard]
       | succ f => simp [DecHist.discard, hnH]
 
+/-! ### values: the FITs and listener calls of the successful `Decode` calls -/
+
+def isFit : DecApi.Out → Bool
+  | .fit _ => true
+  | _ => false
+
+/-- the successful `Decode` calls of (C)'s run, in order: the returned FIT (header, messages with VALUES, developer fields, CRC)
+and the listener calls made during the call (reserved byte of definitions zeroed: (D') does not observe it) -/
+def fitsC (a : Api) (ops : List DecApi.Op) : List (Out × List Event) :=
+  normCalls ((DecApi.run a ops).filter fun p => isFit p.1)
+
+/-- the same rebuilt from (D')'s events by `apiOf`'s reconstruction (`iStep`): one entry per completed sequence -/
+def foldDone (o : Opts) (evs : List DecProg.Ev) : List (Out × List Event) :=
+  (evs.foldl iStep { t := St.fresh o [] }).done
+
+theorem fitsC_nil (a : Api) : fitsC a [] = [] := rfl
+
+theorem fitsC_cons (a : Api) (op : DecApi.Op) (ops : List DecApi.Op) :
+    fitsC a (op :: ops) = (bif isFit (DecApi.step a op).2.1 then
+      [((DecApi.step a op).2.1, (DecApi.step a op).2.2.map normEvent)] else []) ++ fitsC (DecApi.step a op).1 ops := by
+  unfold fitsC
+  have : DecApi.run a (op :: ops) = ((DecApi.step a op).2.1, (DecApi.step a op).2.2) :: DecApi.run (DecApi.step a op).1 ops := rfl
+  rw [this, List.filter_cons]
+  cases h : isFit (DecApi.step a op).2.1 <;> simp [normCalls, h]
+
 /-! ### the dead decoder -/
 
 theorem tok_sticky (eH : DecHist.HErr) (op : DecHist.Op) : tokC (stickyOut (errH eH) (apiOp op)) = tokH (DecHist.stickyRes eH op) := by
@@ -354,6 +379,19 @@ theorem run_dead (eH : DecHist.HErr) : ∀ (ops : List DecHist.Op) (a : Api), a.
     rw [this, tok_sticky]
     rfl
 
+theorem fitsC_dead (eH : DecHist.HErr) : ∀ (ops : List DecHist.Op) (a : Api), a.d.q.err = some (errH eH) →
+    fitsC a (ops.map apiOp) = [] := by
+  intro ops
+  induction ops with
+  | nil => intro a _; rfl
+  | cons op ops ih =>
+    intro a ha
+    have hs := step_sticky a (errH eH) ha (apiOp op) (by cases op <;> intro _ _ h <;> cases h)
+    rw [List.map_cons, fitsC_cons, hs.2, ih a ha]
+    have : (DecApi.step a (apiOp op)).2.1 = stickyOut (errH eH) (apiOp op) := by rw [hs.1]
+    rw [this]
+    cases op <;> rfl
+
 /-- the end of a history program on a dead decoder, against (C)'s run from a dead decoder -/
 theorem finish_dead (d : DecHist.Dec) (eH : DecHist.HErr) (hd : d.err = some eH) (a : Api) (ha : a.d.q.err = some (errH eH))
     (ops : List DecHist.Op) :
@@ -366,7 +404,7 @@ theorem finish_dead (d : DecHist.Dec) (eH : DecHist.HErr) (hd : d.err = some eH)
 /-- (D')'s decoder object `d` and (C)'s `a` between two calls, outside a sequence's records (the remaining stream of (D') is
 `a.d.rest`): options, no sticky error, "a byte was consumed", the `sync.Once` and the header it decoded, position 0 in the
 sequence, running checksum 0 -/
-structure Rel (o : Opts) (d : DecHist.Dec) (a : Api) : Prop where
+structure Rel (o : Opts) (done : List (Out × List Event)) (d : DecHist.Dec) (a : Api) : Prop where
   opts : a.d.o = o
   chk : d.chk = o.chk
   err : a.d.q.err = none
@@ -389,7 +427,7 @@ structure Rel (o : Opts) (d : DecHist.Dec) (a : Api) : Prop where
   defs : d.st.defs = []
   descs : d.st.descs = []
   /-- the events so far are those of completed `Decode` calls: the reconstruction `apiOf` stands at a sequence boundary -/
-  evs : ∃ tt done, d.st.evs.reverse.foldl iStep { t := St.fresh o [] } = { t := tt, done := done, pend := [], bad := false } ∧
+  evs : ∃ tt, d.st.evs.reverse.foldl iStep { t := St.fresh o [] } = { t := tt, done := done, pend := [], bad := false } ∧
     tt.o = o ∧ tt.q = {} ∧ tt.look = {}
 
 /-- the calls the link covers: everything but `PeekFileId`, `DecodeWithContext` cancelled while it runs, and `CheckIntegrity` -/
@@ -402,13 +440,13 @@ def linked : DecHist.Op → Bool
   | _ => false
 
 theorem Rel.new (o : Opts) (bs : List Nat) (hb : DecApi.IsBytes bs) (hlen : bs.length < 4294967296) :
-    Rel o { chk := o.chk } (Api.fresh o bs) :=
+    Rel o [] { chk := o.chk } (Api.fresh o bs) :=
   ⟨rfl, rfl, rfl, rfl, hb, rfl, rfl, rfl, fun h => absurd rfl h, rfl, hlen, rfl, rfl, rfl, rfl, rfl, rfl, rfl, rfl,
-    ⟨St.fresh o [], [], rfl, rfl, rfl, rfl⟩⟩
+    ⟨St.fresh o [], rfl, rfl, rfl, rfl⟩⟩
 
 /-- after a successful `decodeFileHeaderOnce` inside a call that leaves the decoder behind the header -/
-theorem Rel.afterHeader {o : Opts} {d : DecHist.Dec} {a : Api} (hr : Rel o d a) {h : DecProg.Hdr} {d' : DecHist.Dec} {s1 : St}
-    (hp : HdrPost d a.d h d' s1) (r : DecHist.OpRes) : Rel o { d' with res := r :: d'.res } (a.advance s1) := by
+theorem Rel.afterHeader {o : Opts} {done : List (Out × List Event)} {d : DecHist.Dec} {a : Api} (hr : Rel o done d a) {h : DecProg.Hdr} {d' : DecHist.Dec} {s1 : St}
+    (hp : HdrPost d a.d h d' s1) (r : DecHist.OpRes) : Rel o done { d' with res := r :: d'.res } (a.advance s1) := by
   have hlen1 : s1.rest.length ≤ a.d.rest.length := by
     by_cases hn : d.hdr = none
     · have := (hp.fresh hn).2; omega
@@ -419,7 +457,7 @@ theorem Rel.afterHeader {o : Opts} {d : DecHist.Dec} {a : Api} (hr : Rel o d a) 
     by show s1.q.ts = 0; rw [hp.qts, hr.qts], by show s1.q.lastOff = 0; rw [hp.qoff, hr.qoff],
     by show s1.q.acc = []; rw [hp.qacc, hr.qacc], by show s1.q.msgs = []; rw [hp.qmsgs, hr.qmsgs],
     by show s1.q.fileId = none; rw [hp.qfid, hr.qfid], by show d'.st.defs = []; rw [hp.defs, hr.defs],
-    by show d'.st.descs = []; rw [hp.descs, hr.descs], by show ∃ tt done, d'.st.evs.reverse.foldl _ _ = _ ∧ _; rw [hp.evs]; exact hr.evs⟩
+    by show d'.st.descs = []; rw [hp.descs, hr.descs], by show ∃ tt, d'.st.evs.reverse.foldl _ _ = _ ∧ _; rw [hp.evs]; exact hr.evs⟩
   · show d'.moved = !(a.n + (a.d.rest.length - s1.rest.length) == 0)
     by_cases hn : d.hdr = none
     · obtain ⟨h1, h2⟩ := hp.fresh hn
@@ -439,25 +477,39 @@ theorem Rel.afterHeader {o : Opts} {d : DecHist.Dec} {a : Api} (hr : Rel o d a) 
     rw [hp.hdr]
     exact ⟨hp.qdone, hp.qhdr, hp.cur, hp.small, hp.crc⟩
 
-theorem hdrFail_res (d : DecHist.Dec) (ops : List DecHist.Op) (e : DecProg.Err) (r : Bytes) (a : Api) (ha : a.d.q.err = some (errC e)) :
-    (runExact (DecHist.hdrFail d ops e) r).res.map tokH = d.res.reverse.map tokH ++ Tok.err (errC e) :: toksC a (ops.map apiOp) := by
-  unfold DecHist.hdrFail DecHist.failOp
-  simp only [runExact]
-  rw [finish_dead _ (.dec e) rfl a ha]
-  simp [tokH, errH]
-
-
-theorem failOp_res (d : DecHist.Dec) (ops : List DecHist.Op) (st : DecProg.St) (e : DecProg.Err) (r : Bytes) (a : Api)
-    (ha : a.d.q.err = some (errC e)) :
-    (runExact (DecHist.failOp d ops st e) r).res.map tokH = d.res.reverse.map tokH ++ Tok.err (errC e) :: toksC a (ops.map apiOp) := by
+theorem failOp_res (o : Opts) (done : List (Out × List Event)) (d : DecHist.Dec) (ops : List DecHist.Op) (st : DecProg.St)
+    (e : DecProg.Err) (r : Bytes) (a : Api) (ha : a.d.q.err = some (errC e)) (hd : foldDone o st.evs.reverse = done) :
+    (runExact (DecHist.failOp d ops st e) r).res.map tokH = d.res.reverse.map tokH ++ Tok.err (errC e) :: toksC a (ops.map apiOp) ∧
+    foldDone o (runExact (DecHist.failOp d ops st e) r).evs = done ++ fitsC a (ops.map apiOp) := by
   unfold DecHist.failOp
   simp only [runExact]
-  rw [finish_dead _ (.dec e) rfl a ha]
-  simp [tokH, errH]
+  constructor
+  · rw [finish_dead _ (.dec e) rfl a ha]
+    simp [tokH, errH]
+  · rw [fitsC_dead (.dec e) ops a ha]
+    simpa [DecHist.finish] using hd
 
-theorem Rel.withRes {o : Opts} {d : DecHist.Dec} {a : Api} (hr : Rel o d a) (r : List DecHist.OpRes) : Rel o { d with res := r } a :=
+theorem hdrFail_res (o : Opts) (done : List (Out × List Event)) (d : DecHist.Dec) (ops : List DecHist.Op) (e : DecProg.Err) (r : Bytes)
+    (a : Api) (ha : a.d.q.err = some (errC e)) (hd : foldDone o d.st.evs.reverse = done) :
+    (runExact (DecHist.hdrFail d ops e) r).res.map tokH = d.res.reverse.map tokH ++ Tok.err (errC e) :: toksC a (ops.map apiOp) ∧
+    foldDone o (runExact (DecHist.hdrFail d ops e) r).evs = done ++ fitsC a (ops.map apiOp) :=
+  failOp_res o done d ops d.st e r a ha hd
+
+theorem Rel.withRes {o : Opts} {done : List (Out × List Event)} {d : DecHist.Dec} {a : Api} (hr : Rel o done d a) (r : List DecHist.OpRes) : Rel o done { d with res := r } a :=
   ⟨hr.opts, hr.chk, hr.err, hr.derr, hr.bytes, hr.moved, hr.cur, hr.crc, hr.hm, hr.hdr, hr.small, hr.look, hr.qts, hr.qoff, hr.qacc,
     hr.qmsgs, hr.qfid, hr.defs, hr.descs, hr.evs⟩
+
+theorem Rel.foldDone {o : Opts} {done : List (Out × List Event)} {d : DecHist.Dec} {a : Api} (hr : Rel o done d a) :
+    foldDone o d.st.evs.reverse = done := by
+  obtain ⟨tt, h, _⟩ := hr.evs
+  unfold LinkH.foldDone
+  rw [h]
+
+theorem follows_foldDone {o : Opts} {s : St} {st : DecProg.St} {done : List (Out × List Event)} {pend : List Event}
+    (h : Follows o s st done pend) : foldDone o st.evs.reverse = done := by
+  obtain ⟨t, h1, _⟩ := h
+  unfold foldDone
+  rw [h1]
 
 theorem step_lift_next (a : Api) : DecApi.step a .next =
     (a.advance (stepNext (a.n == 0) a.d).1, (stepNext (a.n == 0) a.d).2.1, (stepNext (a.n == 0) a.d).2.2) := rfl
@@ -472,15 +524,23 @@ theorem step_lift_decode (a : Api) : DecApi.step a .decode =
 (`messagesH_link`), the file CRC, `reset()`; `ih` = the remaining calls from corresponding states -/
 theorem decode_link (o : Opts) (hfac : FacOK o.fac) (hbt : facBtOK o.fac = true) (hfd : facFdOK o.fac = true) (fuelCi : Nat)
     (ops : List DecHist.Op)
-    (ih : ∀ (d : DecHist.Dec) (a : Api), Rel o d a →
-      (runExact (DecHist.run fuelCi ops d) a.d.rest).res.map tokH = d.res.reverse.map tokH ++ toksC a (ops.map apiOp))
-    (d : DecHist.Dec) (a : Api) (hr : Rel o d a) :
+    (ih : ∀ (done : List (Out × List Event)) (d : DecHist.Dec) (a : Api), Rel o done d a →
+      (runExact (DecHist.run fuelCi ops d) a.d.rest).res.map tokH = d.res.reverse.map tokH ++ toksC a (ops.map apiOp) ∧
+      foldDone o (runExact (DecHist.run fuelCi ops d) a.d.rest).evs = done ++ fitsC a (ops.map apiOp))
+    (done : List (Out × List Event)) (d : DecHist.Dec) (a : Api) (hr : Rel o done d a) :
     (runExact (DecHist.headerOnce d.chk d (fun e => DecHist.hdrFail d ops (.io e)) (fun e d => DecHist.hdrFail d ops e) fun h d =>
         DecHist.messages (DecHist.failOp d ops) d.chk h.dataSize h.dataSize d.fileId d.st fun _ st =>
           DecHist.fileCrc (DecHist.failOp d ops) d.chk st fun c =>
             DecHist.run fuelCi ops (d.renew (.seq h.size h.protoVer h.profileVer h.dataSize h.crc c st.msgs :: st.evs) (.fit h c st.msgs)))
       a.d.rest).res.map tokH =
-    d.res.reverse.map tokH ++ tokC (decodeBody a.d).2.1 :: toksC (a.advance (decodeBody a.d).1) (ops.map apiOp) := by
+      d.res.reverse.map tokH ++ tokC (decodeBody a.d).2.1 :: toksC (a.advance (decodeBody a.d).1) (ops.map apiOp) ∧
+    foldDone o (runExact (DecHist.headerOnce d.chk d (fun e => DecHist.hdrFail d ops (.io e)) (fun e d => DecHist.hdrFail d ops e) fun h d =>
+        DecHist.messages (DecHist.failOp d ops) d.chk h.dataSize h.dataSize d.fileId d.st fun _ st =>
+          DecHist.fileCrc (DecHist.failOp d ops) d.chk st fun c =>
+            DecHist.run fuelCi ops (d.renew (.seq h.size h.protoVer h.profileVer h.dataSize h.crc c st.msgs :: st.evs) (.fit h c st.msgs)))
+      a.d.rest).evs =
+      done ++ ((bif isFit (decodeBody a.d).2.1 then [((decodeBody a.d).2.1, (decodeBody a.d).2.2.map normEvent)] else []) ++
+        fitsC (a.advance (decodeBody a.d).1) (ops.map apiOp)) := by
   have hlk := headerOnce_link d.chk d (fun e => DecHist.hdrFail d ops (.io e)) (fun e d => DecHist.hdrFail d ops e) (fun h d =>
         DecHist.messages (DecHist.failOp d ops) d.chk h.dataSize h.dataSize d.fileId d.st fun _ st =>
           DecHist.fileCrc (DecHist.failOp d ops) d.chk st fun c =>
@@ -491,7 +551,7 @@ theorem decode_link (o : Opts) (hfac : FacOK o.fac) (hbt : facBtOK o.fac = true)
     rw [hh] at hlk
     obtain ⟨h, d', hp, hrun⟩ := hlk
     rw [hrun, decodeBody_eq a.d s1 hh]
-    obtain ⟨tt, done, hfold, hto, htq, htl⟩ := hr.evs
+    obtain ⟨tt, hfold, hto, htq, htl⟩ := hr.evs
     have hs1o : s1.o = o := by rw [hp.o, hr.opts]
     have hlen1 : s1.rest.length ≤ a.d.rest.length := by
       by_cases hn : d.hdr = none
@@ -523,30 +583,39 @@ theorem decode_link (o : Opts) (hfac : FacOK o.fac) (hbt : facBtOK o.fac = true)
     | panic => exact hml.elim
     | hang => exact hml.elim
     | err e =>
-      obtain ⟨st', e', r', he, hrun2⟩ := hml
+      obtain ⟨st', e', r', he, hFe, hrun2⟩ := hml
       rw [hrun2]
       subst he
-      rw [failOp_res d' ops st' e' r' (a.advance (release { s2 with q := { s2.q with err := some (errC e') } })) rfl]
-      simp [decodeTail, DecApi.fail, hp.res, tokC]
+      have hfo := failOp_res o done d' ops st' e' r' (a.advance (release { s2 with q := { s2.q with err := some (errC e') } })) rfl
+        (follows_foldDone hFe)
+      refine ⟨?_, ?_⟩
+      · rw [hfo.1]; simp [decodeTail, DecApi.fail, hp.res, tokC]
+      · rw [hfo.2]; simp [decodeTail, DecApi.fail, isFit]
     | ok u =>
       cases u
       obtain ⟨f, st2, hcd2, hT2, hF2, hrun2⟩ := hml
       rw [hrun2]
       unfold DecHist.fileCrc
-      simp only [decodeTail]
-      rw [decodeCRC_eq]
+      simp only [decodeTail, decodeCRC_eq]
       have hchk2 : d'.chk = s2.o.chk := by rw [hchk1, ho2]
+      have hfd2 := follows_foldDone hF2
       match hrest2 : s2.rest with
       | [] =>
         rw [runExact_read_short _ _ _ (by simp)]
         dsimp only
-        rw [failOp_res d' ops st2 (.io _) [] (a.advance (release { s2 with q := { s2.q with err := some .eof } })) rfl]
-        simp [DecApi.fail, hp.res, tokC, errC]
-      | [_] =>
+        have hfo := failOp_res o done d' ops st2 (.io (if ([] : Bytes).isEmpty then .eof else .unexpectedEof)) []
+          (a.advance (release { s2 with q := { s2.q with err := some .eof } })) rfl hfd2
+        refine ⟨?_, ?_⟩
+        · rw [hfo.1]; simp [DecApi.fail, hp.res, tokC, errC]
+        · rw [hfo.2]; simp [DecApi.fail, isFit]
+      | [x] =>
         rw [runExact_read_short _ _ _ (by simp)]
         dsimp only
-        rw [failOp_res d' ops st2 (.io _) [] (a.advance (release { s2 with q := { s2.q with err := some .eof } })) rfl]
-        simp [DecApi.fail, hp.res, tokC, errC]
+        have hfo := failOp_res o done d' ops st2 (.io (if ([x] : Bytes).isEmpty then .eof else .unexpectedEof)) []
+          (a.advance (release { s2 with q := { s2.q with err := some .eof } })) rfl hfd2
+        refine ⟨?_, ?_⟩
+        · rw [hfo.1]; simp [DecApi.fail, hp.res, tokC, errC]
+        · rw [hfo.2]; simp [DecApi.fail, isFit]
       | lo :: hi :: r3 =>
         rw [runExact_read_ok _ _ _ (by simp)]
         dsimp only
@@ -555,13 +624,16 @@ theorem decode_link (o : Opts) (hfac : FacOK o.fac) (hbt : facBtOK o.fac = true)
         rw [hle, hd2, hcd2.crc, hchk2]
         by_cases hc : s2.o.chk = true ∧ s2.q.crc16 ≠ lo + 256 * hi
         · rw [if_pos hc, if_pos hc]
-          rw [failOp_res d' ops st2 .crc r3 (a.advance (release { s2 with q := { s2.q with err := some .crc } })) rfl]
-          simp [DecApi.fail, hp.res, tokC, errC]
+          have hfo := failOp_res o done d' ops st2 .crc r3 (a.advance (release { s2 with q := { s2.q with err := some .crc } })) rfl hfd2
+          refine ⟨?_, ?_⟩
+          · rw [hfo.1]; simp [DecApi.fail, hp.res, tokC, errC]
+          · rw [hfo.2]; simp [DecApi.fail, isFit]
         · rw [if_neg hc, if_neg hc]
           dsimp only
           obtain ⟨t', hf', hsh'⟩ := hF2
           have hr3 : r3.length + 2 = s2.rest.length := by rw [hrest2]; simp
-          have hrn : Rel o (d'.renew (.seq h.size h.protoVer h.profileVer h.dataSize h.crc (lo + 256 * hi) st2.msgs :: st2.evs)
+          have hrn : Rel o (done ++ [(.fit ⟨⟨h.size, h.protoVer, h.profileVer, h.dataSize, h.crc⟩, t'.q.msgs.reverse, lo + 256 * hi⟩,
+              List.map normEvent ([] ++ evs2))]) (d'.renew (.seq h.size h.protoVer h.profileVer h.dataSize h.crc (lo + 256 * hi) st2.msgs :: st2.evs)
               (.fit h (lo + 256 * hi) st2.msgs))
               (a.advance (release (resetSeq { s2 with rest := r3, q := { s2.q with crc := lo + 256 * hi, crc16 := 0 } }))) := by
             refine ⟨by show s2.o = o; rw [ho2, hs1o], by show d'.chk = o.chk; rw [hp.chk, hr.chk], rfl, rfl, ?_, ?_, rfl, rfl,
@@ -576,13 +648,17 @@ theorem decode_link (o : Opts) (hfac : FacOK o.fac) (hbt : facBtOK o.fac = true)
               rw [this]; rfl
             · show r3.length < 4294967296
               omega
-            · refine ⟨_, _, fold_snoc_seq _ _ _ _ _ hf' h.size h.protoVer h.profileVer h.dataSize h.crc (lo + 256 * hi) st2.msgs, ?_, rfl, rfl⟩
+            · refine ⟨_, fold_snoc_seq _ _ _ _ _ hf' h.size h.protoVer h.profileVer h.dataSize h.crc (lo + 256 * hi) st2.msgs, ?_, rfl, rfl⟩
               show t'.o = o
               rw [hsh'.o, ho2, hs1o]
-          have := ih _ _ hrn
+          have := ih _ _ _ hrn
           rw [show (a.advance (release (resetSeq { s2 with rest := r3, q := { s2.q with crc := lo + 256 * hi, crc16 := 0 } }))).d.rest = r3 from rfl] at this
-          rw [this]
-          simp [DecHist.Dec.renew, hp.res, tokH, tokC, hh2, hp.qhdr]
+          obtain ⟨ih1, ih2⟩ := this
+          refine ⟨?_, ?_⟩
+          · rw [ih1]
+            simp [DecHist.Dec.renew, hp.res, tokH, tokC, hh2, hp.qhdr]
+          · rw [ih2]
+            simp [isFit, hsh'.msgs, hh2, hp.qhdr, hdrOf]
   | err e =>
     rw [hh] at hlk
     obtain ⟨_, hcase⟩ := hlk
@@ -590,11 +666,11 @@ theorem decode_link (o : Opts) (hfac : FacOK o.fac) (hbt : facBtOK o.fac = true)
     rw [hh]
     rcases hcase with ⟨_, he, hrun⟩ | ⟨e', r, he, _, hrun⟩
     · rw [hrun]; subst he
-      rw [hdrFail_res d ops (.io .eof) [] (a.advance (failHeader a.d (Res.err .eof : Res St)).1) rfl]
-      rfl
+      have hfo := hdrFail_res o done d ops (.io .eof) [] (a.advance (failHeader a.d (Res.err .eof : Res St)).1) rfl hr.foldDone
+      exact ⟨by rw [hfo.1]; rfl, by rw [hfo.2]; rfl⟩
     · rw [hrun]; subst he
-      rw [hdrFail_res _ ops e' r (a.advance (failHeader a.d (Res.err (errC e') : Res St)).1) rfl]
-      rfl
+      have hfo := hdrFail_res o done { d with moved := true } ops e' r (a.advance (failHeader a.d (Res.err (errC e') : Res St)).1) rfl hr.foldDone
+      exact ⟨by rw [hfo.1]; rfl, by rw [hfo.2]; rfl⟩
   | panic => rw [hh] at hlk; exact hlk.elim
   | hang => rw [hh] at hlk; exact hlk.elim
 
@@ -607,24 +683,28 @@ theorem step_lift_discard (a : Api) : DecApi.step a .discard =
 theorem step_lift_ctx (a : Api) (c : Bool) : DecApi.step a (.decodeCtx c) =
     (a.advance (stepDecodeCtx c a.d).1, (stepDecodeCtx c a.d).2.1, (stepDecodeCtx c a.d).2.2) := rfl
 
-/-- **state correspondence after each call**: from corresponding states, the results of the remaining calls correspond -/
+/-- **state correspondence after each call**: from corresponding states, the results of the remaining calls correspond, and the
+FITs `apiOf`'s reconstruction rebuilds from (D')'s events are those (C)'s successful `Decode` calls return -/
 theorem run_link (o : Opts) (hfac : FacOK o.fac) (hbt : facBtOK o.fac = true) (hfd : facFdOK o.fac = true) (fuelCi : Nat) :
-    ∀ (ops : List DecHist.Op) (d : DecHist.Dec) (a : Api), Rel o d a →
+    ∀ (ops : List DecHist.Op) (done : List (Out × List Event)) (d : DecHist.Dec) (a : Api), Rel o done d a →
     (∀ op ∈ ops, linked op = true) →
-    (runExact (DecHist.run fuelCi ops d) a.d.rest).res.map tokH = d.res.reverse.map tokH ++ toksC a (ops.map apiOp) := by
+    (runExact (DecHist.run fuelCi ops d) a.d.rest).res.map tokH = d.res.reverse.map tokH ++ toksC a (ops.map apiOp) ∧
+    foldDone o (runExact (DecHist.run fuelCi ops d) a.d.rest).evs = done ++ fitsC a (ops.map apiOp) := by
   intro ops
   induction ops with
   | nil =>
-    intro d a hr _
-    simp [DecHist.run, runExact, DecHist.finish, hr.derr, toksC_nil]
+    intro done d a hr _
+    refine ⟨by simp [DecHist.run, runExact, DecHist.finish, hr.derr, toksC_nil], ?_⟩
+    simp only [DecHist.run, runExact, DecHist.finish, List.map_nil, fitsC_nil, List.append_nil]
+    exact hr.foldDone
   | cons op ops ih =>
-    intro d a hr hsub
+    intro done d a hr hsub
     have hsub' : ∀ op ∈ ops, linked op = true := fun x hx => hsub x (by simp [hx])
     have hop := hsub op (by simp)
     unfold DecHist.run
     rw [hr.derr]
     dsimp only
-    rw [List.map_cons, toksC_cons]
+    rw [List.map_cons, toksC_cons, fitsC_cons]
     cases op with
     | peekHeader =>
       dsimp only [apiOp]
@@ -642,20 +722,22 @@ theorem run_link (o : Opts) (hfac : FacOK o.fac) (hbt : facBtOK o.fac = true) (h
         obtain ⟨h, d', hp, hrun⟩ := hlk
         rw [hrun]
         dsimp only
-        have := ih _ _ (hr.afterHeader hp (.header h)) hsub'
+        have := ih _ _ _ (hr.afterHeader hp (.header h)) hsub'
         rw [show (a.advance s1).d.rest = s1.rest from rfl] at this
-        rw [this]
-        simp [hp.res, tokH, tokC, hp.qhdr]
+        obtain ⟨ih1, ih2⟩ := this
+        refine ⟨?_, ?_⟩
+        · rw [ih1]; simp [hp.res, tokH, tokC, hp.qhdr]
+        · rw [ih2]; simp [isFit]
       | err e =>
         rw [hh] at hlk
         obtain ⟨_, hcase⟩ := hlk
         rcases hcase with ⟨_, he, hrun⟩ | ⟨e', r, he, _, hrun⟩
         · rw [hrun]; subst he
-          rw [hdrFail_res d ops (.io .eof) [] (a.advance (failHeader a.d (Res.err .eof : Res St)).1) rfl]
-          rfl
+          have hfo := hdrFail_res o done d ops (.io .eof) [] (a.advance (failHeader a.d (Res.err .eof : Res St)).1) rfl hr.foldDone
+          exact ⟨by rw [hfo.1]; rfl, by rw [hfo.2]; rfl⟩
         · rw [hrun]; subst he
-          rw [hdrFail_res _ ops e' r (a.advance (failHeader a.d (Res.err (errC e') : Res St)).1) rfl]
-          rfl
+          have hfo := hdrFail_res o done { d with moved := true } ops e' r (a.advance (failHeader a.d (Res.err (errC e') : Res St)).1) rfl hr.foldDone
+          exact ⟨by rw [hfo.1]; rfl, by rw [hfo.2]; rfl⟩
       | panic => rw [hh] at hlk; exact hlk.elim
       | hang => rw [hh] at hlk; exact hlk.elim
     | decodeCtx c =>
@@ -666,7 +748,7 @@ theorem run_link (o : Opts) (hfac : FacOK o.fac) (hbt : facBtOK o.fac = true) (h
         unfold stepDecodeCtx
         rw [hr.err]
         dsimp only
-        exact decode_link o hfac hbt hfd fuelCi ops (fun d a h => ih d a h hsub') d a hr
+        exact decode_link o hfac hbt hfd fuelCi ops (fun done d a h => ih done d a h hsub') done d a hr
       | true =>
         dsimp only [apiOp]
         rw [step_lift_ctx]
@@ -674,8 +756,12 @@ theorem run_link (o : Opts) (hfac : FacOK o.fac) (hbt : facBtOK o.fac = true) (h
         rw [hr.err]
         dsimp only
         simp only [runExact, if_true]
-        rw [finish_dead _ .ctx rfl (a.advance { a.d with q := { a.d.q with err := some .ctx } }) rfl]
-        simp [tokH, tokC, errH]
+        refine ⟨?_, ?_⟩
+        · rw [finish_dead _ .ctx rfl (a.advance { a.d with q := { a.d.q with err := some .ctx } }) rfl]
+          simp [tokH, tokC, errH]
+        · rw [fitsC_dead .ctx ops (a.advance { a.d with q := { a.d.q with err := some .ctx } }) rfl]
+          simp only [DecHist.finish, isFit, List.append_nil, cond_false]
+          exact hr.foldDone
     | discard =>
       dsimp only [apiOp]
       rw [step_lift_discard]
@@ -704,6 +790,7 @@ theorem run_link (o : Opts) (hfac : FacOK o.fac) (hbt : facBtOK o.fac = true) (h
           by_cases hn : d.hdr = none
           · have := (hp.fresh hn).2; rw [e0r] at this; omega
           · rw [(hp.old hn).2, e0r]; exact Nat.le_refl _
+        have hfd' : foldDone o d'.st.evs.reverse = done := by rw [hp.evs]; exact hr.foldDone
         have hdl := discard_link (DecHist.failOp d' ops)
           (fun st => DecHist.rdN (DecHist.failOp d' ops) false 2 st fun _ st => DecHist.run fuelCi ops (d'.renew st.evs .done))
           h.dataSize hp.small (fuelOf s1) h.dataSize s1 d'.st (by rw [hp.cur, hp.qcur]) (by rw [hp.qhdr]; rfl)
@@ -720,7 +807,7 @@ theorem run_link (o : Opts) (hfac : FacOK o.fac) (hbt : facBtOK o.fac = true) (h
           by_cases hl : 2 ≤ s2.rest.length
           · rw [if_pos hl, runExact_read_ok _ _ _ hl]
             dsimp only
-            have hr2 : Rel o (d'.renew st'.evs .done) (a.advance { o := { s2.o with chk := a.d.o.chk }, rest := s2.rest.drop 2 }) := by
+            have hr2 : Rel o done (d'.renew st'.evs .done) (a.advance { o := { s2.o with chk := a.d.o.chk }, rest := s2.rest.drop 2 }) := by
               refine ⟨?_, by show d'.chk = o.chk; rw [hp.chk, hr.chk], rfl, rfl, IsBytes.drop' (hb2 hp.bytes) 2, ?_, rfl, rfl,
                 fun hn => absurd rfl hn, rfl, ?_, rfl, rfl, rfl, rfl, rfl, rfl, rfl, rfl, ?_⟩
               · show ({ s2.o with chk := a.d.o.chk } : Opts) = o
@@ -731,24 +818,32 @@ theorem run_link (o : Opts) (hfac : FacOK o.fac) (hbt : facBtOK o.fac = true) (h
                 rw [this]; rfl
               · show (s2.rest.drop 2).length < 4294967296
                 rw [List.length_drop]; have := hr.small; omega
-              · show ∃ tt done, st'.evs.reverse.foldl _ _ = _ ∧ _
+              · show ∃ tt, st'.evs.reverse.foldl _ _ = _ ∧ _
                 rw [hevs, hp.evs]; exact hr.evs
-            have := ih _ _ hr2 hsub'
+            have := ih _ _ _ hr2 hsub'
             rw [show (a.advance ({ o := { s2.o with chk := a.d.o.chk }, rest := s2.rest.drop 2 } : St)).d.rest = s2.rest.drop 2 from rfl] at this
-            rw [this]
-            simp [DecHist.Dec.renew, hp.res, tokH, tokC, resetSeq]
+            obtain ⟨ih1, ih2⟩ := this
+            refine ⟨?_, ?_⟩
+            · rw [ih1]; simp [DecHist.Dec.renew, hp.res, tokH, tokC, resetSeq]
+            · rw [ih2]; simp [isFit, resetSeq]
           · rw [if_neg hl, runExact_read_short _ _ _ (by omega)]
             dsimp only
-            rw [failOp_res d' ops _ (.io _) [] (a.advance { s2 with o := { s2.o with chk := a.d.o.chk }, q := { s2.q with err := some .eof } }) rfl]
-            simp [hp.res, tokC, DecApi.fail, errC]
+            have hfo := failOp_res o done d' ops st' (.io (if s2.rest.isEmpty then .eof else .unexpectedEof)) []
+              (a.advance { s2 with o := { s2.o with chk := a.d.o.chk }, q := { s2.q with err := some .eof } }) rfl (by rw [hevs]; exact hfd')
+            refine ⟨?_, ?_⟩
+            · rw [hfo.1]; simp [hp.res, tokC, DecApi.fail, errC]
+            · rw [hfo.2]; simp [DecApi.fail, isFit]
         | err e =>
           rw [hdm] at hdl
           obtain ⟨he, st', e', r, hevs, hrun2⟩ := hdl
           subst he
           rw [hrun2]
           dsimp only
-          rw [failOp_res d' ops _ (.io e') r (a.advance { s1 with o := { s1.o with chk := a.d.o.chk }, q := { s1.q with err := some .eof } }) rfl]
-          simp [hp.res, tokC, DecApi.fail, errC]
+          have hfo := failOp_res o done d' ops st' (.io e') r
+            (a.advance { s1 with o := { s1.o with chk := a.d.o.chk }, q := { s1.q with err := some .eof } }) rfl (by rw [hevs]; exact hfd')
+          refine ⟨?_, ?_⟩
+          · rw [hfo.1]; simp [hp.res, tokC, DecApi.fail, errC]
+          · rw [hfo.2]; simp [DecApi.fail, isFit]
         | panic => rw [hdm] at hdl; exact hdl.elim
         | hang => rw [hdm] at hdl; exact hdl.elim
       | err e =>
@@ -756,11 +851,11 @@ theorem run_link (o : Opts) (hfac : FacOK o.fac) (hbt : facBtOK o.fac = true) (h
         obtain ⟨_, hcase⟩ := hlk
         rcases hcase with ⟨_, he, hrun⟩ | ⟨e', r, he, _, hrun⟩
         · rw [hrun]; subst he
-          rw [hdrFail_res d ops (.io .eof) [] (a.advance { s0 with o := { s0.o with chk := a.d.o.chk }, q := { s0.q with hdrDone := true, err := some .eof } }) rfl]
-          rfl
+          have hfo := hdrFail_res o done d ops (.io .eof) [] (a.advance { s0 with o := { s0.o with chk := a.d.o.chk }, q := { s0.q with hdrDone := true, err := some .eof } }) rfl hr.foldDone
+          exact ⟨by rw [hfo.1]; rfl, by rw [hfo.2]; rfl⟩
         · rw [hrun]; subst he
-          rw [hdrFail_res _ ops e' r (a.advance { s0 with o := { s0.o with chk := a.d.o.chk }, q := { s0.q with hdrDone := true, err := some (errC e') } }) rfl]
-          rfl
+          have hfo := hdrFail_res o done { d with moved := true } ops e' r (a.advance { s0 with o := { s0.o with chk := a.d.o.chk }, q := { s0.q with hdrDone := true, err := some (errC e') } }) rfl hr.foldDone
+          exact ⟨by rw [hfo.1]; rfl, by rw [hfo.2]; rfl⟩
       | panic => rw [hh] at hlk; exact hlk.elim
       | hang => rw [hh] at hlk; exact hlk.elim
     | next =>
@@ -773,19 +868,20 @@ theorem run_link (o : Opts) (hfac : FacOK o.fac) (hbt : facBtOK o.fac = true) (h
       by_cases hmv : d.moved = false
       · have hn : (a.n == 0) = true := by have := hr.moved; rw [hmv] at this; simpa using this
         have hc : (!d.moved) = true := by rw [hmv]; rfl
-        rw [if_pos hc, if_pos hn]
-        dsimp only
+        simp only [if_pos hc, if_pos hn]
         rw [Api.advance_same]
-        have hr2 : Rel o { d with err := none, res := .bool true :: d.res } a :=
+        have hr2 : Rel o done { d with err := none, res := .bool true :: d.res } a :=
           ⟨hr.opts, hr.chk, hr.err, rfl, hr.bytes, hr.moved, hr.cur, hr.crc, hr.hm, hr.hdr, hr.small, hr.look, hr.qts, hr.qoff, hr.qacc,
             hr.qmsgs, hr.qfid, hr.defs, hr.descs, hr.evs⟩
-        rw [ih _ _ hr2 hsub']
-        simp [tokH, tokC]
+        obtain ⟨ih1, ih2⟩ := ih _ _ _ hr2 hsub'
+        refine ⟨?_, ?_⟩
+        · rw [ih1]; simp [tokH, tokC]
+        · rw [ih2]; simp [isFit]
       · have hmv' : d.moved = true := by cases hd : d.moved <;> simp_all
         have hn : (a.n == 0) = false := by have := hr.moved; rw [hmv'] at this; simpa using this
         have hc : ¬ (!d.moved) = true := by rw [hmv']; simp
         have hn' : ¬ (a.n == 0) = true := by rw [hn]; simp
-        rw [if_neg hc, if_neg hn']
+        simp only [if_neg hc, if_neg hn']
         have hlk := headerOnce_link d.chk d
           (fun e => .ret (DecHist.finish { d with err := some (.dec (.io e)), res := .bool (!(DecProg.Err.io e).endsIteration) :: d.res } ops))
           (fun e d => .ret (DecHist.finish { d with err := some (.dec e), res := .bool (!e.endsIteration) :: d.res } ops))
@@ -797,22 +893,32 @@ theorem run_link (o : Opts) (hfac : FacOK o.fac) (hbt : facBtOK o.fac = true) (h
           obtain ⟨h, d', hp, hrun⟩ := hlk
           rw [hrun]
           dsimp only
-          have := ih _ _ (hr.afterHeader hp (.bool true)) hsub'
+          have := ih _ _ _ (hr.afterHeader hp (.bool true)) hsub'
           rw [show (a.advance s1).d.rest = s1.rest from rfl] at this
-          rw [this]
-          simp [hp.res, tokH, tokC]
+          obtain ⟨ih1, ih2⟩ := this
+          refine ⟨?_, ?_⟩
+          · rw [ih1]; simp [hp.res, tokH, tokC]
+          · rw [ih2]; simp [isFit]
         | err e =>
           rw [hh] at hlk
           obtain ⟨_, hcase⟩ := hlk
           rcases hcase with ⟨_, he, hrun⟩ | ⟨e', r, he, hends, hrun⟩
           · rw [hrun]; subst he
             simp only [runExact]
-            rw [finish_dead _ (.dec (.io .eof)) rfl (a.advance { a.d with q := { a.d.q with hdrDone := true, err := some .eof } }) rfl]
-            simp [tokH, tokC, DecProg.Err.endsIteration]
+            refine ⟨?_, ?_⟩
+            · rw [finish_dead _ (.dec (.io .eof)) rfl (a.advance { a.d with q := { a.d.q with hdrDone := true, err := some .eof } }) rfl]
+              simp [tokH, tokC, DecProg.Err.endsIteration]
+            · rw [fitsC_dead (.dec (.io .eof)) ops (a.advance { a.d with q := { a.d.q with hdrDone := true, err := some .eof } }) rfl]
+              simp only [DecHist.finish, isFit, List.append_nil, cond_false]
+              exact hr.foldDone
           · rw [hrun]; subst he
             simp only [runExact]
-            rw [finish_dead _ (.dec e') rfl (a.advance { a.d with q := { a.d.q with hdrDone := true, err := some (errC e') } }) rfl]
-            simp [tokH, tokC, hends]
+            refine ⟨?_, ?_⟩
+            · rw [finish_dead _ (.dec e') rfl (a.advance { a.d with q := { a.d.q with hdrDone := true, err := some (errC e') } }) rfl]
+              simp [tokH, tokC, hends]
+            · rw [fitsC_dead (.dec e') ops (a.advance { a.d with q := { a.d.q with hdrDone := true, err := some (errC e') } }) rfl]
+              simp only [DecHist.finish, isFit, List.append_nil, cond_false]
+              exact hr.foldDone
         | panic => rw [hh] at hlk; exact hlk.elim
         | hang => rw [hh] at hlk; exact hlk.elim
     | decode =>
@@ -821,7 +927,7 @@ theorem run_link (o : Opts) (hfac : FacOK o.fac) (hbt : facBtOK o.fac = true) (h
       unfold stepDecode
       rw [hr.err]
       dsimp only
-      exact decode_link o hfac hbt hfd fuelCi ops (fun d a h => ih d a h hsub') d a hr
+      exact decode_link o hfac hbt hfd fuelCi ops (fun done d a h => ih done d a h hsub') done d a hr
     | decodeCtxAt k => cases hop
     | peekFileId => cases hop
     | checkIntegrity => cases hop
